@@ -98,11 +98,16 @@ REGISTRY = {
                             "templates with argument origins and the blank-line guard (R02.2/R02.3), resume discipline (R02.4), "
                             "overflow table (R02.5), header order of the effective iterator and its consumers (R02.6), Host/framing "
                             "decision table with writer agreement (R02.7), no body bytes in this state (R02.8)."),
+    "C03": dict(modules=["rules_c03"], min_instances=5, trusted_base=TB + ["format_args! template decoder (self-tested on every run)"],
+                explanation="E6 emission templates on the E4 paths of Call::<WithBody>::write with a chunked writer, for (finished-before x "
+                            "input empty/non-empty): terminator table incl. zero-size chunks (R03.1/R03.3), finished <=> terminator "
+                            "written (R03.2), chunk framing with one n for size line, data slice and counter (R03.4), refusal table "
+                            "(R03.5), readiness origin (R03.6)."),
 }
 
 _PENDING = "check not built yet in this round (planned static rules: DESIGN.md section 4)"
 NOT_APPLICABLE = {
-    "C01": _PENDING, "C03": _PENDING, 
+    "C01": _PENDING, 
     
     "C12": _PENDING, "C16": _PENDING,
     "C18": _PENDING, 
@@ -112,6 +117,13 @@ NOT_APPLICABLE = {
 }
 
 MANIFEST_META = {
+    "C03": dict(
+        technique="emission-template analysis over MIR (decoded format_args + abstract interpretation with order reasoning)",
+        design_ref="DESIGN.md section 4 C03",
+        level_text="Structural: which emissions are possible in which (finished, input) cell, that a chunk's size line, data slice "
+                   "and consumed counter use one proven-positive n, that finished tracks the terminator write, that refusals emit nothing.",
+        level_note="NOT decided: whether a chunk of a given size fits (left to the rollback, R02.1), hex rendering of the size "
+                   "(std), progress (C19)."),
     "C02": dict(
         technique="emission-template analysis over MIR (decoded format_args + abstract interpretation) + CFG dominance rules",
         design_ref="DESIGN.md section 4 C02",
